@@ -126,6 +126,7 @@ class SimMachine(object):
         self.eth = dict(((x, y), k) for x, y, k in eth)      # Ethernet-connected chips -> last byte of 10.11.12.k
         self.mem = Memory(seed, over)
         self.buffer_size = buffer_size
+        self.core_buffers = {}      # core -> buffer size of the kernel running there, where it differs (application cores)
         self.dims = tuple(dims)
         self.boot = tuple(boot)
         self.log = []          # one entry per datagram executed: dict(x, y, p, cmd, args, data, rc, reply)
@@ -149,12 +150,16 @@ class SimMachine(object):
             self.mem.put(chip, base + i, data[i])
 
     # ------------------------------------------------------------------ one command
+    def limit(self, p):
+        """the data buffer of the kernel on core p: a command is checked against the buffer of the core it addresses"""
+        return self.core_buffers.get(p, self.buffer_size)
+
     def execute(self, chip, p, cmd, args, data):
         """-> (rc, reply args, reply data)"""
         a1, a2, a3 = args
         if cmd == CMD_VER:
             arg1 = (((chip[0] << 8) | chip[1]) << 16) | (p & 0xff)
-            return RC_OK, (arg1, (133 << 16) | (self.buffer_size & 0xffff), 0), b"SC&MP/SpiNNaker\0"
+            return RC_OK, (arg1, (133 << 16) | (self.limit(p) & 0xffff), 0), b"SC&MP/SpiNNaker\0"
         if cmd == CMD_INFO:
             # chip information: arg1 = cores | links << 8 | free router entries << 14 | ethernet up << 25;
             # data = 18 core states, nearest Ethernet chip (x << 8 | y), IP address
@@ -165,11 +170,11 @@ class SimMachine(object):
                 bytes(bytearray([10, 11, 12, self.eth.get(chip, 0)]))
             return RC_OK, (arg1, 1 << 20, 1 << 14), data
         if cmd == CMD_READ:
-            if a3 not in UNITS or a2 > self.buffer_size:
+            if a3 not in UNITS or a2 > self.limit(p):
                 return RC_ARG, (), b""
             return RC_OK, (), self.read_units(chip, a1, a2, UNITS[a3])
         if cmd == CMD_WRITE:
-            if a3 not in UNITS or a2 > self.buffer_size:
+            if a3 not in UNITS or a2 > self.limit(p):
                 return RC_ARG, (), b""
             if len(data) != a2:
                 return RC_LEN, (), b""
@@ -179,11 +184,11 @@ class SimMachine(object):
             self.mem.fill(chip, a1 - a1 % 4, 4 * (a3 // 4), bytearray(struct.pack("<I", a2)))
             return RC_OK, (), b""
         if cmd == CMD_LINK_READ:
-            if a2 > self.buffer_size:
+            if a2 > self.limit(p):
                 return RC_ARG, (), b""
             return RC_OK, (), self.read_units(self.neighbour(chip, a3), a1, a2, 4)
         if cmd == CMD_LINK_WRITE:
-            if a2 > self.buffer_size:
+            if a2 > self.limit(p):
                 return RC_ARG, (), b""
             if len(data) != a2:
                 return RC_LEN, (), b""
